@@ -686,3 +686,51 @@ def replay_sorts(model):
     return {"confirmed": bool(bad), "witness_class": "level-1.1 nested sub-structs",
             "input": "synthetic level 1.1 image, 2 lines x 3 pixels", "observed": bad,
             "expected": "no variable of dtype object"}
+
+
+# ---------------------------------------------------------------------------------------------------
+# C11: ghost I/O log of the metadata pass (open time)
+# ---------------------------------------------------------------------------------------------------
+def an_iolog(sub, payload, unit, tag, res):
+    """read_metadata: read(720) · for chunk j = 0..ceil(n/rpc)-1 one read of chunksize_j*R bytes at 720 + R*rpc*j, front to
+    back, no seek, each inside the file; nothing else"""
+    if res.outcome != "return":
+        return
+    from props.imageunit import FSIZE, N, R, RPC
+
+    prop = payload["prop"]
+    fn = _fn(unit)
+    it = res.extra["it"]
+    log = it.io_log
+    pid = f"{prop}/{unit}/metadata-pass"
+    kinds = [e[0] for e in log]
+    sub.decided(f"{pid}/log-shape=open,read(720),chunk-reads", kinds == ["open", "read", "block"], function=fn,
+                detail={"log": kinds})
+    if kinds != ["open", "read", "block"]:
+        return
+    sub.decided(f"{pid}/opens-only-the-image", log[0][1] == "IMG", function=fn)
+    base = path_hyps(res.path)
+    _, _, pos, req, got = log[1]
+    sub.prove(f"{pid}/descriptor-read-is-720-bytes-at-0", base, z3.And(as_int_term(pos) == 0, as_int_term(req) == 720, as_int_term(got) == 720),
+              function=fn, kind="post", sliced=True)
+    _, iv, n, events = log[2]
+    ek = [e[0] for e in events]
+    sub.decided(f"{pid}/one-read-per-chunk-and-no-seek", ek == ["read"], function=fn, detail={"events": ek})
+    if ek != ["read"]:
+        return
+    _, _, cpos, creq, cgot = events[0]
+    rng = [iv >= 0, iv < as_int_term(n)]
+    K = z3.Function("ceil_div", z3.IntSort(), z3.IntSort(), z3.IntSort())(N, RPC)
+    from pyvc.dump import definitional_equalities
+
+    hyp = base + definitional_equalities(res.path) + rng
+    sub.prove(f"{pid}/number-of-requests=ceil(lines/rpc)", hyp, z3.And(RPC * (as_int_term(n) - 1) < N, N <= RPC * as_int_term(n)),
+              function=fn, kind="post", sliced=True)
+    sub.prove(f"{pid}/chunk-read-position=720+R*rpc*j", hyp, as_int_term(cpos) == 720 + R * RPC * iv, function=fn, kind="post", sliced=True)
+    size = z3.If(RPC * (iv + 1) <= N, RPC, N - RPC * iv) * R
+    sub.prove(f"{pid}/chunk-read-size=chunksize*R", hyp, z3.And(as_int_term(creq) == size, as_int_term(cgot) == size), function=fn,
+              kind="post", sliced=True)
+    sub.prove(f"{pid}/chunk-read-inside-the-file", hyp, z3.And(as_int_term(cpos) >= 720, as_int_term(cpos) + as_int_term(creq) <= FSIZE),
+              function=fn, kind="post", sliced=True)
+    sub.prove(f"{pid}/front-to-back", hyp + [iv + 1 < as_int_term(n)],
+              as_int_term(cpos) + as_int_term(cgot) == 720 + R * RPC * (iv + 1), function=fn, kind="post", sliced=True)
